@@ -726,6 +726,10 @@ func (s *sender) handleRcvdSegment(seg *segment) {
 
 			if datalen > ackLeft {
 				seg.data.TrimFront(int(ackLeft))
+				// The remaining bytes start ackLeft further into the
+				// stream; without this a retransmission would carry
+				// them under the old sequence number.
+				seg.sequenceNumber.UpdateForward(ackLeft)
 				break
 			}
 
